@@ -416,6 +416,7 @@ type BFSSpec struct {
 	MaxTrans int // cap on transitions (reported as a cap if hit)
 	Alphabet func(info json.RawMessage, depth int) []Op
 	Gor      bool
+	OnState  func(ops []Op, info json.RawMessage) // called for every transition's resulting state (before deduplication)
 }
 
 type BFSStats struct {
@@ -514,10 +515,13 @@ func RunBFS(p *Pool, sp BFSSpec, rep *Report, st *BFSStats) {
 			if len(st.Samples) < 3 && depth >= 1 && len(jops[i]) >= 2 {
 				st.Samples = append(st.Samples, map[string]any{"scenario": sp.Name, "history": jops[i], "last_response": out.Last.Resp, "state": out.Key})
 			}
+			ib, _ := json.Marshal(out.Info)
+			if sp.OnState != nil {
+				sp.OnState(jops[i], ib)
+			}
 			if !seen[out.Key] {
 				seen[out.Key] = true
 				st.States++
-				ib, _ := json.Marshal(out.Info)
 				next = append(next, bfsNode{ops: jops[i], info: ib})
 			}
 		}
